@@ -52,6 +52,29 @@ def b_transpile(sql, read, write):
     return body
 
 
+AUTO_TARGETS = ["", "tsql", "duckdb", "mysql", "snowflake"]
+
+
+def b_transpile_warm(sql, read):
+    """Call-time harness body: the dialects are loaded before the threads start (sched preload); the statement is generated into
+    its own dialect and into five others (an identity round trip hides a wrong format / name conversion)."""
+    targets = [read] + [t for t in AUTO_TARGETS if t != read]
+
+    def body():
+        import sqlglot
+
+        out = []
+        for w in targets:
+            try:
+                out.append(sqlglot.transpile(sql, read=read or None, write=w or None))
+            except sqlglot.errors.SqlglotError as e:
+                out.append("SqlglotError:" + type(e).__name__)
+        return out
+    body.__name__ = f"transpile:{read}->*"
+    body.preload = targets
+    return body
+
+
 def b_optimize(sql):
     def body():
         import sqlglot
@@ -173,10 +196,10 @@ def discover_auto(ctx):
         (_, d1, s1) = lst[0]
         other = next(((d, s) for _, d, s in lst[1:] if d != d1), None) or next(((d, s) for _, d, s in lst[1:]), None)
         name = f"auto:{os.path.basename(fn)}:{qn}"
-        AUTO.append((name + ":same", [b_transpile(s1, d1, d1), b_transpile(s1, d1, d1)]))
+        AUTO.append((name + ":same", [b_transpile_warm(s1, d1), b_transpile_warm(s1, d1)]))
         AUTO_SPECS[name + ":same"] = [[s1, d1], [s1, d1]]
         if other:
-            AUTO.append((name + ":pair", [b_transpile(s1, d1, d1), b_transpile(other[1], other[0], other[0])]))
+            AUTO.append((name + ":pair", [b_transpile_warm(s1, d1), b_transpile_warm(other[1], other[0])]))
             AUTO_SPECS[name + ":pair"] = [[s1, d1], [other[1], other[0]]]
         info[name] = {"reached_by": [s1[:120]] + ([other[1][:120]] if other else [])}
     return info
@@ -365,7 +388,7 @@ def run(ctx: Ctx) -> None:
 def replay(ctx: Ctx, case: dict) -> bool:
     sched.extent_writers()   # scan once in the parent; the forked executions inherit the result
     if case.get("auto"):
-        AUTO.append((case["harness"], [b_transpile(s_, d_, d_) for s_, d_ in case["auto"]]))
+        AUTO.append((case["harness"], [b_transpile_warm(s_, d_) for s_, d_ in case["auto"]]))
     allh = all_harnesses()
     bodies = allh[case["harness"]]
     baseline = [sched.forked([b], {}, 0)["out"][0] for b in bodies]
